@@ -69,9 +69,10 @@ static void oput(const char *fmt, ...) {
 }
 
 /* ---- padded data_map, so that a wrong position is observed, not a crash ---- */
-typedef struct { parsec_data_t **base; long size, pad; } pmap_t;
+typedef struct { parsec_data_t **base; long size, pad, hint; } pmap_t;
 static void pmap_install(parsec_tiled_matrix_t *t, pmap_t *pm, long ntiles) {
     pm->pad = 2 * ntiles + 256; pm->size = 2 * pm->pad + 4 * ntiles + 256;
+    pm->hint = t->nb_local_tiles > 0 ? t->nb_local_tiles : 0;
     pm->base = calloc(pm->size, sizeof(parsec_data_t *));
     free(t->data_map);
     t->data_map = pm->base + pm->pad;
@@ -83,6 +84,9 @@ static void pmap_remove(parsec_tiled_matrix_t *t, pmap_t *pm) {
 /* position at which data_of stored [d]; the slot is emptied again so that every
  * data_of call builds a fresh parsec_data_t (with its own key and pointer) */
 static long pmap_take(pmap_t *pm, parsec_data_t *d, int *found) {
+    /* the legal slots first (they are few), then everything */
+    for (long k = pm->pad; k < pm->pad + pm->hint && k < pm->size; k++)
+        if (pm->base[k] == d) { pm->base[k] = NULL; *found = 1; return k - pm->pad; }
     for (long k = 0; k < pm->size; k++)
         if (pm->base[k] == d) { pm->base[k] = NULL; *found = 1; return k - pm->pad; }
     *found = 0; return 0;
